@@ -17,6 +17,324 @@ fn bits_of(bytes: &[u8]) -> String {
         .collect()
 }
 
+// ---- content-level deserialization of arbitrary (mutated) serialized content (C11) ----
+use serde_assert::Token;
+
+#[derive(Clone)]
+struct SArch {
+    bytes: Vec<u8>,
+    declared: u64,
+    rows: Vec<((u64, u64), Vec<u64>)>,
+    /// (row, column): that cell is written as a token of the wrong type
+    poison: Option<(usize, usize)>,
+}
+
+#[derive(Clone)]
+struct Content {
+    archs: Vec<SArch>,
+    length: u64,
+    free: Vec<(u64, u64)>,
+    res: [u64; 4],
+}
+
+fn content_of(w: &mut W) -> Content {
+    let d = w.verif_dump();
+    let vals: HashMap<(usize, u64), Vec<u64>> = query_all(w).into_iter().map(|(id, _b, v)| (id, v)).collect();
+    let archs = d
+        .archetypes
+        .iter()
+        .map(|a| SArch {
+            bytes: a.identifier_bytes.clone(),
+            declared: a.length as u64,
+            rows: a
+                .entity_identifiers
+                .iter()
+                .map(|id| ((id.0 as u64, id.1), vals.get(id).cloned().unwrap_or_default()))
+                .collect(),
+            poison: None,
+        })
+        .collect();
+    let free = d.free.iter().map(|&i| (i as u64, d.slots[i].0)).collect();
+    let rv = res_values(w);
+    Content { archs, length: d.slots.len() as u64, free, res: rv }
+}
+
+fn mutate(c: &mut Content, m: &[&str]) {
+    let si = |i: usize| -> i64 { m.get(i).and_then(|x| x.parse::<i64>().ok()).unwrap_or(0) };
+    let n = |i: usize| -> u64 { si(i).unsigned_abs() };
+    // declared lengths stay bounded by the input size: no wrap-around
+    let addi = |x: u64, d: i64| -> u64 { if d < 0 { x.saturating_sub(d.unsigned_abs()) } else { x.saturating_add(d as u64).min(1 << 20) } };
+    let na = c.archs.len();
+    let arch = |c: &Content, i: usize| -> usize { if na == 0 { 0 } else { (n(i) as usize) % c.archs.len() } };
+    match m.first().copied().unwrap_or("none") {
+        "dupid" => {
+            if na > 0 {
+                let (a, b) = (arch(c, 1), arch(c, 3));
+                if !c.archs[a].rows.is_empty() && !c.archs[b].rows.is_empty() {
+                    let id = c.archs[a].rows[n(2) as usize % c.archs[a].rows.len()].0;
+                    let k = n(4) as usize % c.archs[b].rows.len();
+                    c.archs[b].rows[k].0 = id;
+                }
+            }
+        }
+        "setid" => {
+            if na > 0 {
+                let a = arch(c, 1);
+                if !c.archs[a].rows.is_empty() {
+                    let k = n(2) as usize % c.archs[a].rows.len();
+                    c.archs[a].rows[k].0 = (n(3), n(4));
+                }
+            }
+        }
+        "gen" => {
+            if na > 0 {
+                let a = arch(c, 1);
+                if !c.archs[a].rows.is_empty() {
+                    let k = n(2) as usize % c.archs[a].rows.len();
+                    c.archs[a].rows[k].0 .1 = c.archs[a].rows[k].0 .1.wrapping_add(n(3));
+                }
+            }
+        }
+        "freeadd" => c.free.push((n(1), n(2))),
+        "freedel" => {
+            if !c.free.is_empty() {
+                let k = n(1) as usize % c.free.len();
+                c.free.remove(k);
+            }
+        }
+        "freedup" => {
+            if !c.free.is_empty() {
+                let k = n(1) as usize % c.free.len();
+                let x = c.free[k];
+                c.free.push(x);
+            }
+        }
+        "freelive" => {
+            // list a stored identifier as free as well
+            if na > 0 {
+                let a = arch(c, 1);
+                if !c.archs[a].rows.is_empty() {
+                    let id = c.archs[a].rows[n(2) as usize % c.archs[a].rows.len()].0;
+                    c.free.push(id);
+                }
+            }
+        }
+        "len" => c.length = addi(c.length, si(1)),
+        "alen" => {
+            if na > 0 {
+                let a = arch(c, 1);
+                c.archs[a].declared = addi(c.archs[a].declared, si(2));
+            }
+        }
+        "byte" => {
+            if na > 0 {
+                let a = arch(c, 1);
+                if !c.archs[a].bytes.is_empty() {
+                    let k = n(2) as usize % c.archs[a].bytes.len();
+                    c.archs[a].bytes[k] ^= n(3) as u8;
+                }
+            }
+        }
+        "addbyte" => {
+            if na > 0 {
+                let a = arch(c, 1);
+                c.archs[a].bytes.push(n(2) as u8);
+            }
+        }
+        "delbyte" => {
+            if na > 0 {
+                let a = arch(c, 1);
+                c.archs[a].bytes.pop();
+            }
+        }
+        "delval" => {
+            if na > 0 {
+                let a = arch(c, 1);
+                if !c.archs[a].rows.is_empty() {
+                    let k = n(2) as usize % c.archs[a].rows.len();
+                    c.archs[a].rows[k].1.pop();
+                }
+            }
+        }
+        "addval" => {
+            if na > 0 {
+                let a = arch(c, 1);
+                if !c.archs[a].rows.is_empty() {
+                    let k = n(2) as usize % c.archs[a].rows.len();
+                    c.archs[a].rows[k].1.push(n(3));
+                }
+            }
+        }
+        "poison" => {
+            if na > 0 {
+                let a = arch(c, 1);
+                if !c.archs[a].rows.is_empty() {
+                    let k = n(2) as usize % c.archs[a].rows.len();
+                    let nv = c.archs[a].rows[k].1.len();
+                    if nv > 0 {
+                        c.archs[a].poison = Some((k, n(3) as usize % nv));
+                    }
+                }
+            }
+        }
+        "delrow" => {
+            if na > 0 {
+                let a = arch(c, 1);
+                if !c.archs[a].rows.is_empty() {
+                    let k = n(2) as usize % c.archs[a].rows.len();
+                    c.archs[a].rows.remove(k);
+                    if n(3) == 1 {
+                        c.archs[a].declared = c.archs[a].rows.len() as u64;
+                    }
+                }
+            }
+        }
+        "duprow" => {
+            if na > 0 {
+                let a = arch(c, 1);
+                if !c.archs[a].rows.is_empty() {
+                    let k = n(2) as usize % c.archs[a].rows.len();
+                    let r = c.archs[a].rows[k].clone();
+                    c.archs[a].rows.push(r);
+                    if n(3) == 1 {
+                        c.archs[a].declared = c.archs[a].rows.len() as u64;
+                    }
+                }
+            }
+        }
+        "delarch" => {
+            if na > 0 {
+                let a = arch(c, 1);
+                c.archs.remove(a);
+            }
+        }
+        "duparch" => {
+            if na > 0 {
+                let a = arch(c, 1);
+                let x = c.archs[a].clone();
+                c.archs.push(x);
+            }
+        }
+        "emptyarch" => {
+            // an archetype with the given identifier bytes and no rows
+            let nb = (N + 7) / 8;
+            let bytes: Vec<u8> = (0..nb).map(|k| n(1 + k) as u8).collect();
+            c.archs.push(SArch { bytes, declared: 0, rows: Vec::new(), poison: None });
+        }
+        _ => {}
+    }
+}
+
+fn id_tokens(t: &mut Vec<Token>, id: (u64, u64)) {
+    t.push(Token::Struct { name: "Identifier", len: 2 });
+    t.push(Token::Field("index"));
+    t.push(Token::U64(id.0));
+    t.push(Token::Field("generation"));
+    t.push(Token::U64(id.1));
+    t.push(Token::StructEnd);
+}
+
+fn ncols_of(bytes: &[u8]) -> usize {
+    (0..N).filter(|&k| bytes.get(k / 8).map_or(false, |b| b >> (k % 8) & 1 == 1)).count()
+}
+
+fn encode(c: &Content, hr: bool) -> Vec<Token> {
+    let mut t = Vec::new();
+    t.push(Token::Tuple { len: 3 });
+    t.push(Token::Seq { len: Some(c.archs.len()) });
+    for a in &c.archs {
+        t.push(Token::NewtypeStruct { name: "Archetype" });
+        t.push(Token::Tuple { len: 3 });
+        t.push(Token::Tuple { len: a.bytes.len() });
+        for b in &a.bytes {
+            t.push(Token::U8(*b));
+        }
+        t.push(Token::TupleEnd);
+        t.push(Token::U64(a.declared));
+        if hr {
+            t.push(Token::Tuple { len: a.rows.len() });
+            for (ri, (id, vals)) in a.rows.iter().enumerate() {
+                t.push(Token::Tuple { len: 1 + vals.len() });
+                id_tokens(&mut t, *id);
+                for (ci, v) in vals.iter().enumerate() {
+                    if a.poison == Some((ri, ci)) {
+                        t.push(Token::Bool(true));
+                    } else {
+                        t.push(Token::U64(*v));
+                    }
+                }
+                t.push(Token::TupleEnd);
+            }
+            t.push(Token::TupleEnd);
+        } else {
+            let ncols = a.rows.iter().map(|r| r.1.len()).max().unwrap_or_else(|| ncols_of(&a.bytes));
+            t.push(Token::Tuple { len: 1 + ncols });
+            t.push(Token::Tuple { len: a.rows.len() });
+            for (id, _) in &a.rows {
+                id_tokens(&mut t, *id);
+            }
+            t.push(Token::TupleEnd);
+            for j in 0..ncols {
+                let col: Vec<(usize, u64)> =
+                    a.rows.iter().enumerate().filter_map(|(ri, r)| r.1.get(j).map(|v| (ri, *v))).collect();
+                t.push(Token::Tuple { len: col.len() });
+                for (ri, v) in col {
+                    if a.poison == Some((ri, j)) {
+                        t.push(Token::Bool(true));
+                    } else {
+                        t.push(Token::U64(v));
+                    }
+                }
+                t.push(Token::TupleEnd);
+            }
+            t.push(Token::TupleEnd);
+        }
+        t.push(Token::TupleEnd);
+    }
+    t.push(Token::SeqEnd);
+    t.push(Token::Struct { name: "Allocator", len: 2 });
+    t.push(Token::Field("length"));
+    t.push(Token::U64(c.length));
+    t.push(Token::Field("free"));
+    t.push(Token::Seq { len: Some(c.free.len()) });
+    for f in &c.free {
+        id_tokens(&mut t, *f);
+    }
+    t.push(Token::SeqEnd);
+    t.push(Token::StructEnd);
+    t.push(Token::Tuple { len: 4 });
+    for v in &c.res {
+        t.push(Token::U64(*v));
+    }
+    t.push(Token::TupleEnd);
+    t.push(Token::TupleEnd);
+    t
+}
+
+fn content_text(c: &Content) -> String {
+    let mut s = String::new();
+    for a in &c.archs {
+        let hex: String = a.bytes.iter().map(|b| format!("{:02x}", b)).collect();
+        let _ = write!(s, " | A {} {} {}", if hex.is_empty() { "-".to_string() } else { hex }, a.declared, a.rows.len());
+        for (ri, (id, vals)) in a.rows.iter().enumerate() {
+            let _ = write!(s, " {} {} {}", id.0, id.1, vals.len());
+            for (ci, v) in vals.iter().enumerate() {
+                if a.poison == Some((ri, ci)) {
+                    let _ = write!(s, " !{}", v);
+                } else {
+                    let _ = write!(s, " {}", v);
+                }
+            }
+        }
+    }
+    let _ = write!(s, " | L {} | F", c.length);
+    for f in &c.free {
+        let _ = write!(s, " {}:{}", f.0, f.1);
+    }
+    let _ = write!(s, " | R {} {} {} {}", c.res[0], c.res[1], c.res[2], c.res[3]);
+    s
+}
+
 struct State {
     worlds: Vec<Option<W>>,
     issued: Vec<(usize, u64)>,
@@ -385,6 +703,38 @@ fn apply(st: &mut State, line: &str, out: &mut String) {
                         }
                         Err(e) => {
                             ret = format!("err-ser {}", e.to_string().replace('\n', " "));
+                        }
+                    }
+                }
+            }
+        }
+        "mde" => {
+            // mde src dst hr <mutation words…> [; <mutation words…>]
+            let (src, dst, hr) = (u(1), u(2), u(3) == 1);
+            while st.worlds.len() <= dst {
+                st.worlds.push(None);
+            }
+            if dst != src {
+                st.worlds[dst] = None;
+                ledger::take_events();
+                if let Some(w) = st.worlds[src].as_mut() {
+                    let mut c = content_of(w);
+                    for m in t[4..].split(|x| *x == ";") {
+                        mutate(&mut c, m);
+                    }
+                    opline = format!("op cde {} {}{}", dst, if hr { 1 } else { 0 }, content_text(&c));
+                    let tokens = serde_assert::Tokens(encode(&c, hr));
+                    let mut de = serde_assert::Deserializer::builder()
+                        .tokens(tokens)
+                        .is_human_readable(hr)
+                        .build();
+                    match W::deserialize(&mut de) {
+                        Ok(w2) => {
+                            st.worlds[dst] = Some(w2);
+                            ret = "ok".into();
+                        }
+                        Err(e) => {
+                            ret = format!("err-de {}", e.to_string().replace('\n', " ").replace(' ', "_"));
                         }
                     }
                 }
